@@ -144,3 +144,10 @@ META['C19'] = dict(
          'The aarch64-only eMask copy in CompiledVm::execute is done by the harness (blind spot).',
     technique='differential property-based testing (rapidcheck) of emitted AArch64 code under an instruction-subset emulator vs the interpreter',
 )
+
+META['C20'] = dict(
+    text='Same construction as C19 for the scalar RISC-V back-end: host-run emitter + cross-assembled runtime + RV64GC instruction-subset emulator (RV64IMD, Zicsr frm, C) with region-checked memory, compared with the host '
+         'interpreter on generated programs and with interpreter dataset items. 320 programs + 64 ranges quick / 100k + 20k thorough. Found and fixed: ISUB_R with imm32 = 0x80000000.',
+    note='Trusted: the emulator (emu/rv64.hpp; decode of every executed word cross-checked against llvm-objdump; semantics validated indirectly by full agreement with the interpreter on the unchanged tree). Zba/Zbb #ifdef paths and the vector back-end are not compiled.',
+    technique='differential property-based testing (rapidcheck) of emitted RV64GC code under an instruction-subset emulator vs the interpreter',
+)
